@@ -13,6 +13,17 @@ func cutPrefixFold(s, prefix string) (string, bool) {
 	return s[len(prefix):], true
 }
 
+// SMTP knows two white space characters. unicode.IsSpace (strings.Fields,
+// strings.TrimSpace) knows many more, and those may legitimately occur in
+// UTF-8 addresses and parameter values (SMTPUTF8, utf-8 ORCPT).
+func isSMTPSpace(r rune) bool {
+	return r == ' ' || r == '\t'
+}
+
+func trimSMTPSpace(s string) string {
+	return strings.TrimFunc(s, isSMTPSpace)
+}
+
 func parseCmd(line string) (cmd string, arg string, err error) {
 	line = strings.TrimRight(line, "\r\n")
 
@@ -37,7 +48,7 @@ func parseCmd(line string) (cmd string, arg string, err error) {
 		return "", "", fmt.Errorf("mangled command: %q", line)
 	}
 
-	return strings.ToUpper(line[0:4]), strings.TrimSpace(line[5:]), nil
+	return strings.ToUpper(line[0:4]), trimSMTPSpace(line[5:]), nil
 }
 
 // Takes the arguments proceeding a command and files them
@@ -49,7 +60,7 @@ func parseCmd(line string) (cmd string, arg string, err error) {
 // The leading space is mandatory.
 func parseArgs(s string) (map[string]string, error) {
 	argMap := map[string]string{}
-	for _, arg := range strings.Fields(s) {
+	for _, arg := range strings.FieldsFunc(s, isSMTPSpace) {
 		m := strings.Split(arg, "=")
 		switch len(m) {
 		case 2:
